@@ -722,42 +722,42 @@ def gen_alias_oracle(rng, n):
 
 
 CLAUSES = [
-    Clause("lang_corr", "corr", gen_lang_corr, run_queries, judge_queries, lean=lean_queries,
+    Clause("lang_corr", "corr", gen_lang_corr, U.bounded(run_queries), judge_queries, lean=lean_queries,
            site="fsa.FSA.follow_word/accepts/initial_*_subword/enumerate_*", budget={"quick": 500, "thorough": 8000},
            what="exhaustive automata (1x3, 2x2), random automata <= 10 states and automata reached by edit histories: follow_word, accepts, "
                 "longest accepted / shortest rejected prefix on all words <= 3 (+ foreign letter), enumerate_fixed_length_paths / enumerate_words "
                 "(n <= 4, every start vertex, a non-vertex) vs the Lean model; final views unchanged"),
-    Clause("builtin_lang_corr", "corr", gen_builtin_lang, run_queries, judge_queries, lean=lean_queries,
+    Clause("builtin_lang_corr", "corr", gen_builtin_lang, U.bounded(run_queries), judge_queries, lean=lean_queries,
            site="fsa.load_builtin + walks", budget={"quick": 18, "thorough": 18},
            what="the 18 built-in automata: the same queries (words <= 2, enumeration n <= 3)"),
-    Clause("ops_corr", "corr", gen_ops_corr, run_queries, judge_queries, lean=lean_queries,
+    Clause("ops_corr", "corr", gen_ops_corr, U.bounded(run_queries), judge_queries, lean=lean_queries,
            site="fsa.FSA.automaton_multiple/rename_generators/recurrent/remove_long_paths",
            budget={"quick": 200, "thorough": 6000},
            what="automaton_multiple k=0..4 (views and enumeration), rename (permutation, fresh letters, incomplete map, non-injective map), "
                 "recurrent, remove_long_paths for every root x edge_ties, each as the three views vs the Lean model; original unchanged"),
-    Clause("lang_oracle", "oracle", gen_lang_oracle, run_lang_oracle,
+    Clause("lang_oracle", "oracle", gen_lang_oracle, U.bounded(run_lang_oracle),
            judge_bad("accepts / follow_word / prefixes / enumerators agree with the reference language, each accepted word listed once"),
            site="fsa.FSA walks and enumerators", budget={"quick": 600, "thorough": 8000},
            what="reference = set of triples; all words <= 4 over the labels + a foreign letter, default start and explicit start vertices, n <= 4, "
                 "with and without states; then a history on the same object — start_vertices reassigned, its list edited in place (setitem, "
                 "insert, append; several start vertices), graph edits — with every query family re-checked after each step"),
-    Clause("multiple_oracle", "oracle", gen_multiple_oracle, run_multiple_oracle,
+    Clause("multiple_oracle", "oracle", gen_multiple_oracle, U.bounded(run_multiple_oracle),
            judge_bad("L(A_k) = accepted words of length divisible by k, each once; A_k coherent; A unchanged"),
            site="fsa.FSA.automaton_multiple / even_automaton", budget={"quick": 600, "thorough": 8000},
            what="k = 1..4, words up to length 6, even_automaton = multiple(2), block-wise accepts on A_k"),
-    Clause("rename_oracle", "oracle", gen_rename_oracle, run_rename_oracle,
+    Clause("rename_oracle", "oracle", gen_rename_oracle, U.bounded(run_rename_oracle),
            judge_bad("renamed language = letterwise image; original unchanged unless inplace"),
            site="fsa.FSA.rename_generators", budget={"quick": 400, "thorough": 4000},
            what="all injective maps of the labels into labels + fresh letters (<= 12 sampled when more)"),
-    Clause("recurrent_oracle", "oracle", gen_recurrent_oracle, run_recurrent_oracle,
+    Clause("recurrent_oracle", "oracle", gen_recurrent_oracle, U.bounded(run_recurrent_oracle),
            judge_bad("recurrent() = greatest sub-automaton in which every vertex has an incoming and an outgoing edge (brute force over subsets)"),
            site="fsa.FSA.recurrent", budget={"quick": 800, "thorough": 8000},
            what="brute-force greatest fixed point over all vertex subsets; inplace and copy variants"),
-    Clause("rlp_oracle", "oracle", gen_rlp_oracle, run_rlp_oracle,
+    Clause("rlp_oracle", "oracle", gen_rlp_oracle, U.bounded(run_rlp_oracle),
            judge_bad("remove_long_paths keeps exactly the edges with dist(head) = dist(tail)+1 (edge_ties) / a spanning tree of them (no ties)"),
            site="fsa.FSA.remove_long_paths", budget={"quick": 600, "thorough": 6000},
            what="independent BFS distances, every root, both edge_ties settings, original unchanged; the result starts at the root and enumerates its language"),
-    Clause("alias_oracle", "oracle", gen_alias_oracle, run_alias_oracle,
+    Clause("alias_oracle", "oracle", gen_alias_oracle, U.bounded(run_alias_oracle),
            judge_bad("automata of one process are independent objects: editing a derived automaton (views or start list) never changes the original, "
                      "and vice versa; the constructor neither keeps nor modifies its arguments; later constructions never change earlier automata"),
            site="fsa.FSA.__init__/recurrent/rename_generators/automaton_multiple/even_automaton/remove_long_paths + copy.deepcopy",
